@@ -28,7 +28,7 @@ def _seqs(tier):
         for d in range(1, maxlen + 1):
             nxt = []
             for node in frontier:
-                for lab in ALPHA + (("dedup", "slice s:e") if tier == "thorough" and d <= 2 else ()):
+                for lab in ALPHA + (("dedup", "slice s:e") if tier == "thorough" and d <= 3 else ("slice s:e",) if d == 2 else ()):
                     n2 = c14._apply(acts, lab, node, None, d)
                     if n2 is not None:
                         nxt.append(n2)
